@@ -187,6 +187,17 @@ claim("C05",
       "sibling comparison of writer/reader/skipper switch cases abstracted to buffer-event sequences over the clang AST",
       "DESIGN.md section 3, C05")
 
+claim("C19",
+      "Thin: compile-time and run-time literal conversion reach the same primitive through the same cast chain (the C04 "
+      "comparison restricted to the four literal-conversion builtins), floats printed into generated C / S-expressions use "
+      "round-trip precision on the default path, and the portable float codec of object files pairs its converters and "
+      "byte counts. Bit identity of the xfloat.c transforms and of dissemble/assemble over all 2^32 patterns is a run-time "
+      "property and is not decided.",
+      "Trusted: clang 14 constant evaluation of the precision argument; ISO C atof/strtod equivalence; 17 significant "
+      "digits identify a binary64.",
+      "sibling tree comparison (C04 rows) + constant-evaluated printf precision lint + codec pairing",
+      "DESIGN.md section 3, C19")
+
 PENDING_REASON = "check designed in DESIGN.md but not yet built in this tree; not claimed until it runs"
 
 
